@@ -114,6 +114,8 @@ Definition notified_once {T} (s s' : ostate T) (v : T) : Prop :=
      kind 0  Observable<int>                      value [n]            Eq = std::equal_to
      kind 1  Observable<double, NearEq>           value [n] = n / 2^20 Eq = |a - b| < 1/64
      kind 2  Observable<std::string>              value = the bytes    Eq = std::equal_to
+     kind 3  Observable<int, BucketEq>            value [n]            Eq = same bucket of eight (floor n/8): an
+                                                                       equality coarser than the unit step of ++ / --
    Arithmetic that would not be exact in the implementation's type (non-dyadic quotient,
    division by zero, magnitude beyond 2^40) is a precondition violation (PRE) on both sides. *)
 
@@ -131,13 +133,15 @@ Fixpoint list_eqb (a b : list Z) : bool :=
 Definition v_eq (kind : Z) (a b : V) : bool :=
   if kind =? 1 then
     match a, b with [x], [y] => Z.abs (x - y) <? TOL | _, _ => list_eqb a b end
+  else if kind =? 3 then
+    match a, b with [x], [y] => Z.div x 8 =? Z.div y 8 | _, _ => list_eqb a b end
   else list_eqb a b.
 
 Definition in_range (n : Z) : bool := Z.abs n <? 1099511627776.   (* 2^40 *)
 
 (* the binary operators of the compound assignments; None = precondition violated *)
 Definition v_bin (kind : Z) (code : Z) (a b : V) : option V :=
-  match kind, a, b with
+  match (if kind =? 3 then 0 else kind), a, b with
   | 0, [x], [y] =>
       let r := if code =? 11 then Some (x + y) else if code =? 12 then Some (x - y)
                else if code =? 13 then Some (x * y)
